@@ -482,6 +482,7 @@ func (g *gen) signer(forInterest bool) *signerKind {
 }
 
 // ---------------------------------------------------------------------------------------------- independent TLV walker
+// readVar reads a T or L number; it accepts only the shortest form (NDN packet format)
 func readVar(b []byte) (uint64, int, bool) {
 	if len(b) == 0 {
 		return 0, 0, false
@@ -493,12 +494,14 @@ func readVar(b []byte) (uint64, int, bool) {
 		if len(b) < 3 {
 			return 0, 0, false
 		}
-		return uint64(b[1])<<8 | uint64(b[2]), 3, true
+		v := uint64(b[1])<<8 | uint64(b[2])
+		return v, 3, v > 0xfc
 	case x == 0xfe:
 		if len(b) < 5 {
 			return 0, 0, false
 		}
-		return uint64(b[1])<<24 | uint64(b[2])<<16 | uint64(b[3])<<8 | uint64(b[4]), 5, true
+		v := uint64(b[1])<<24 | uint64(b[2])<<16 | uint64(b[3])<<8 | uint64(b[4])
+		return v, 5, v > 0xffff
 	default:
 		if len(b) < 9 {
 			return 0, 0, false
@@ -507,7 +510,7 @@ func readVar(b []byte) (uint64, int, bool) {
 		for i := 1; i < 9; i++ {
 			v = v<<8 | uint64(b[i])
 		}
-		return v, 9, true
+		return v, 9, v > 0xffffffff
 	}
 }
 
